@@ -71,13 +71,14 @@ Record mw_case := {
   mk_pre : option string;
   mk_t0 : Z;
   mk_match_method : bool;
+  mk_tlocked : bool;   (* the caller fixed the call's timeout (client.WithRPCTimeout / callopt): routing cannot change it *)
   (* observations *)
   mk_obs_mw : mw_out; mk_mw_panic : bool;
   mk_obs_key : string; mk_obs_key_eff : mw_out; mk_key_panic : bool
 }.
 
 (** candidates for Route's outcome: one per cluster of the support, or the error *)
-Definition route_outcomes (c : mw_case) : list (option (string * Z)) :=
+Definition route_outcomes0 (c : mw_case) : list (option (string * Z)) :=
   let o := mk_oracle_route (mk_valid c) (mk_match c) in
   match match_route o (mk_call c) (mk_lis c) (named_fun (mk_named c)) with
   | None => [None]
@@ -86,6 +87,10 @@ Definition route_outcomes (c : mw_case) : list (option (string * Z)) :=
               | ss => map (fun s => Some (s, r_timeout r)) ss
               end
   end.
+
+(** a timeout the caller has locked stays what it was: the route's timeout is without effect, the decision is not *)
+Definition route_outcomes (c : mw_case) : list (option (string * Z)) :=
+  if mk_tlocked c then map (option_map (fun ct : string * Z => (fst ct, mk_t0 c))) (route_outcomes0 c) else route_outcomes0 c.
 
 Definition mw_agree (c : mw_case) : bool :=
   negb (mk_mw_panic c) && negb (mk_key_panic c) &&
